@@ -7,6 +7,7 @@ without / with wrong cached <v>, shared-formula master and members, array
 formula, style-only empty cell), defined names, sheet names that need quotes.
 The writer is deliberately independent of openpyxl (plain strings + zipfile).
 """
+import copy
 import datetime
 import io
 import random
@@ -190,6 +191,21 @@ def gen_workbook(rng, max_sheets=4):
                                   'value': serial}
                 spec['date_style'] = True
             sh['cells'][coord] = spec
+    # the same sheet-relative formula text on several sheets (what copying
+    # a block between sheets produces)
+    if len(sheets) > 1 and rng.random() < 0.45:
+        for _ in range(rng.randint(1, 2)):
+            parts = gen_parts(sheets[0]['name'])
+            for p in parts:
+                if isinstance(p, dict):
+                    p['sheet'] = None
+            c, r = rng.randrange(W), rng.randrange(H)
+            for sh in rng.sample(sheets, rng.randint(2, len(sheets))):
+                cc, rr = (c, r) if rng.random() < 0.6 else (
+                    rng.randrange(W), rng.randrange(H))
+                sh['cells'][f'{col_letter(cc)}{rr + 1}'] = {
+                    'form': 'f', 'parts': copy.deepcopy(parts),
+                    'cached': gen_cached(rng)}
     # shared formula blocks (placed to the right so they never collide)
     si = 0
     for sh in sheets:
